@@ -30,3 +30,50 @@ package pqueue
 
 //@ func (*Queue[T]).release(prev)
 //@   prop C17
+
+// C17: AcquireMulti neither keeps nor loses a slot. Ghost $slotHeld[k]: this call currently
+// holds the slot of qList[k] (set when Acquire / TryAcquire hand out a release function, cleared
+// when that function, doneList[k], is called). Every retry starts with nothing held, a failed
+// attempt releases exactly what it acquired (each slot once), an error return holds nothing and
+// success holds every queue.
+//@ ghost $slotHeld [1]bool
+//@ callsite elem:doneList()
+//@   prop C17
+//@   name doneList[k]()/AcquireMulti
+//@   in ~/internal/pqueue
+//@   infunc pqueue\.AcquireMulti(\$2)?$
+//@   requires releases-a-held-slot-once: 0 <= idx && idx < len(caller.doneList) && $slotHeld[idx]
+//@ func AcquireMulti(ctx, e, qList) (rctx, done, err)
+//@   prop C17
+//@   entry-assume forall(k, int, !$slotHeld[k])
+//@   on-call Acquire: $slotHeld = $upd($slotHeld, lockI, result1 == nil)
+//@   on-call TryAcquire: $slotHeld = $upd($slotHeld, i__3, result0 != nil)
+//@   on-call elem:doneList: $slotHeld = $upd($slotHeld, idx, false)
+//@   loop 0 (i)
+//@     invariant none-held: forall(k, int, !$slotHeld[k])
+//@   loop 1 (i)
+//@     invariant none-held: forall(k, int, !$slotHeld[k])
+//@     invariant non-empty: len(qList) > 0
+//@   loop 2 (j)
+//@     invariant none-held: forall(k, int, !$slotHeld[k])
+//@     invariant non-empty: len(qList) > 0 && i__2 >= 0 && j <= len(qList) - 1
+//@   loop 3 ()
+//@     invariant none-held-at-retry: forall(k, int, !$slotHeld[k])
+//@     invariant shape: len(doneList) == len(qList) && len(qList) > 0 && 0 <= lockI && lockI < len(qList)
+//@   loop 4 ()
+//@     invariant shape: len(doneList) == len(qList) && 0 <= lockI && lockI < len(qList) && 0 <= i__3 && i__3 <= len(qList)
+//@     invariant held-so-far: forall(k, int, $slotHeld[k] == (0 <= k && k < len(qList) && (k < i__3 || k == lockI)))
+//@     invariant no-failure-yet: acquired && err == nil
+//@   loop 5 ()
+//@     invariant shape: len(doneList) == len(qList) && 0 <= i__3 && i__3 <= len(qList)
+//@     invariant held-below: forall(k, int, $slotHeld[k] == (0 <= k && k < i__3))
+//@   ensures error-holds-nothing: err != nil ==> forall(k, int, !$slotHeld[k])
+//@   ensures success-holds-all: err == nil && len(qList) > 0 ==> forall(k, int, $slotHeld[k] == (0 <= k && k < len(qList)))
+// the release function handed to the caller gives back every slot, each once
+//@ func AcquireMulti$2
+//@   prop C17
+//@   entry-assume forall(k, int, $slotHeld[k] == (0 <= k && k < len(doneList)))
+//@   on-call elem:doneList: $slotHeld = $upd($slotHeld, idx, false)
+//@   loop 0 (i)
+//@     invariant held-below: -1 <= i && i < len(doneList) && forall(k, int, $slotHeld[k] == (0 <= k && k <= i))
+//@   ensures releases-every-slot: forall(k, int, !$slotHeld[k])
